@@ -31,14 +31,15 @@ import (
 // ---- descriptions (replayable) ----
 
 type opDesc struct {
-	K     string `json:"k"`               // create|update|delete|value|exists
-	N     int    `json:"n,omitempty"`     // payload
-	Veto  bool   `json:"veto,omitempty"`  // some BeforeChange listener vetoes this change
-	VetoAt int   `json:"veto_at,omitempty"` // 1-based index of the first vetoing listener (external per-call flag; 0 with Veto = 1)
-	Mark  bool   `json:"mark,omitempty"`  // the value carries the marker field listener 1 vetoes on
-	Wrong int    `json:"wrong,omitempty"` // 0 = value of the store's type, 1.. = some other Go type
-	Unenc int    `json:"unenc,omitempty"` // value of the store's type that cannot be encoded: 1 NaN 2 +Inf 3 -Inf 4 func 5 chan 6 failing MarshalJSON (odd N: nested)
-	NewID string `json:"newid,omitempty"` // what NewID returns if it is called (mockstore)
+	K      string `json:"k"`                 // create|update|delete|value|exists
+	N      int    `json:"n,omitempty"`       // payload
+	Veto   bool   `json:"veto,omitempty"`    // some BeforeChange listener vetoes this change
+	VetoAt int    `json:"veto_at,omitempty"` // 1-based index of the first vetoing listener (external per-call flag; 0 with Veto = 1)
+	Mark   bool   `json:"mark,omitempty"`    // the value carries the marker field listener 1 vetoes on
+	Wrong  int    `json:"wrong,omitempty"`   // 0 = value of the store's type, 1.. = some other Go type
+	Unenc  int    `json:"unenc,omitempty"`   // value of the store's type that cannot be encoded: 1 NaN 2 +Inf 3 -Inf 4 func 5 chan 6 failing MarshalJSON (odd N: nested)
+	NewID  string `json:"newid,omitempty"`   // what NewID returns if it is called (mockstore)
+	NilEnc bool   `json:"nil_enc,omitempty"` // compact binary types: an empty encoding is returned as nil instead of []byte{}
 }
 
 type txnDesc struct {
@@ -53,11 +54,11 @@ type caseDesc struct {
 	Bin          string      `json:"bin,omitempty"` // badgerstore typed with a BinaryMarshaler/BinaryUnmarshaler type: ptr (*binPtr), map (binMap, value receivers), val (binVal{}: methods on the pointer only, so the store falls back to JSON)
 	Prefix       string      `json:"prefix,omitempty"`
 	BeforeChange bool        `json:"before_change,omitempty"`
-	Listeners    int         `json:"listeners,omitempty"` // number of BeforeChange listeners (0 with BeforeChange = 1)
-	NoOnChange   bool        `json:"no_on_change,omitempty"`    // no OnChange listener is registered at all
-	OnChangeMore int         `json:"on_change_more,omitempty"`  // OnChange listeners beyond the first
-	Hooks        bool        `json:"hooks,omitempty"`           // mockstore: OnExists/OnValue/OnCreate/OnUpdate/OnDelete set to functions with the default behaviour
-	Foreign      string      `json:"foreign_entry,omitempty"`   // badgerstore: raw bytes put under id "a" behind the store's back (directed scenario)
+	Listeners    int         `json:"listeners,omitempty"`      // number of BeforeChange listeners (0 with BeforeChange = 1)
+	NoOnChange   bool        `json:"no_on_change,omitempty"`   // no OnChange listener is registered at all
+	OnChangeMore int         `json:"on_change_more,omitempty"` // OnChange listeners beyond the first
+	Hooks        bool        `json:"hooks,omitempty"`          // mockstore: OnExists/OnValue/OnCreate/OnUpdate/OnDelete set to functions with the default behaviour
+	Foreign      string      `json:"foreign_entry,omitempty"`  // badgerstore: raw bytes put under id "a" behind the store's back (directed scenario)
 	NewID        bool        `json:"newid,omitempty"`
 	Txns         []txnDesc   `json:"txns,omitempty"`       // sequential history
 	Goroutines   [][]txnDesc `json:"goroutines,omitempty"` // concurrent history: one list per goroutine
@@ -207,6 +208,96 @@ type binVal struct {
 func (b *binVal) MarshalBinary() ([]byte, error) { return binEnc('V', *b) }
 func (b *binVal) UnmarshalBinary(d []byte) error { return binDec('V', d, b) }
 
+// binCompact: pointer type with a compact binary encoding: the zero value is ZERO bytes ([]byte{} or nil),
+// small numbers are one byte, everything else is 'L' + length + JSON + padding (large: tens of kilobytes).
+type binCompact struct {
+	N      int  `json:"n"`
+	V      bool `json:"v,omitempty"`
+	Pad    int  `json:"pad,omitempty"`
+	Bad    int  `json:"bad,omitempty"`
+	nilEnc bool
+}
+type binCompactWire struct {
+	N   int  `json:"n"`
+	V   bool `json:"v,omitempty"`
+	Pad int  `json:"pad,omitempty"`
+}
+
+func (b *binCompact) MarshalBinary() ([]byte, error) {
+	switch {
+	case b.Bad > 0:
+		return nil, errBinEncode
+	case b.N == 0 && !b.V && b.Pad == 0:
+		if b.nilEnc {
+			return nil, nil
+		}
+		return []byte{}, nil
+	case b.N >= 1 && b.N <= 9 && !b.V && b.Pad == 0:
+		return []byte{byte('0' + b.N)}, nil
+	}
+	j, _ := json.Marshal(binCompactWire{b.N, b.V, b.Pad})
+	out := append([]byte{'L', byte(len(j))}, j...)
+	for i := 0; i < b.Pad; i++ {
+		out = append(out, byte('a'+i%26))
+	}
+	return out, nil
+}
+func (b *binCompact) UnmarshalBinary(d []byte) error {
+	*b = binCompact{}
+	switch {
+	case len(d) == 0:
+		return nil
+	case len(d) == 1 && d[0] >= '1' && d[0] <= '9':
+		b.N = int(d[0] - '0')
+		return nil
+	case len(d) >= 2 && d[0] == 'L' && len(d) >= 2+int(d[1]):
+		var w binCompactWire
+		if err := json.Unmarshal(d[2:2+int(d[1])], &w); err != nil {
+			return err
+		}
+		if len(d) != 2+int(d[1])+w.Pad {
+			return errors.New("binary: truncated value")
+		}
+		b.N, b.V, b.Pad = w.N, w.V, w.Pad
+		return nil
+	}
+	return errors.New("binary: not a value of this store")
+}
+
+// binCMap: map type with value receivers; the empty map is ZERO bytes.
+type binCMap map[string]interface{}
+
+func (m binCMap) MarshalBinary() ([]byte, error) {
+	if _, bad := m["bad"]; bad {
+		return nil, errBinEncode
+	}
+	if len(m) == 0 {
+		return []byte{}, nil
+	}
+	return binEnc('M', map[string]interface{}(m))
+}
+func (m binCMap) UnmarshalBinary(d []byte) error {
+	if len(d) == 0 {
+		return nil
+	}
+	var w map[string]interface{}
+	if err := binDec('M', d, &w); err != nil {
+		return err
+	}
+	for k, v := range w {
+		m[k] = v
+	}
+	return nil
+}
+
+// payload N of the compact types: 0 = the zero value (empty encoding), 1-7 one byte, 8 = large
+func compactPad(n int) int {
+	if n == 8 {
+		return 70000
+	}
+	return 0
+}
+
 // typed says whether values are Go structs (as opposed to untyped maps).
 func (cd caseDesc) typed() bool { return cd.Typed || cd.Bin != "" }
 
@@ -220,6 +311,20 @@ func mkBinValue(cd caseDesc, o opDesc) interface{} {
 		switch cd.Bin {
 		case "ptr":
 			return &binPtr{N: o.N, V: o.Mark, Bad: bad}
+		case "compact":
+			return &binCompact{N: o.N, V: o.Mark, Pad: compactPad(o.N), Bad: bad, nilEnc: o.NilEnc}
+		case "cmap":
+			m := binCMap{}
+			if o.N != 0 {
+				m["n"] = float64(o.N)
+			}
+			if o.Mark {
+				m["v"] = true
+			}
+			if bad > 0 {
+				m["bad"] = float64(bad)
+			}
+			return m
 		case "map":
 			m := binMap{"n": float64(o.N)}
 			if o.N%3 == 1 {
@@ -247,7 +352,9 @@ func mkBinValue(cd caseDesc, o opDesc) interface{} {
 		switch cd.Bin {
 		case "ptr":
 			return binPtr{N: o.N}
-		case "map":
+		case "compact":
+			return binCompact{N: o.N}
+		case "map", "cmap":
 			return map[string]interface{}{"n": float64(o.N)}
 		default:
 			return &binVal{N: o.N}
@@ -434,6 +541,11 @@ func marker(v interface{}) bool {
 		return b
 	case *binPtr:
 		return x != nil && x.V
+	case *binCompact:
+		return x != nil && x.V
+	case binCMap:
+		b, _ := x["v"].(bool)
+		return b
 	case binMap:
 		b, _ := x["v"].(bool)
 		return b
@@ -477,7 +589,7 @@ type bcRec struct {
 type activeOp struct {
 	desc  opDesc
 	isDel bool
-	cbs   []cbRec         // what OnChange listener 1 saw
+	cbs   []cbRec // what OnChange listener 1 saw
 	bcs   []bcRec
 	ocSeq []int           // OnChange listener indices in call order
 	ocs   map[int][]cbRec // what the OnChange listeners beyond the first saw
@@ -580,6 +692,10 @@ func newRig(cd caseDesc, db *badger.DB) *rig {
 			st.SetType(&binPtr{})
 		case cd.Bin == "map":
 			st.SetType(binMap{})
+		case cd.Bin == "compact":
+			st.SetType(&binCompact{})
+		case cd.Bin == "cmap":
+			st.SetType(binCMap{})
 		case cd.Bin == "val":
 			st.SetType(binVal{})
 		case cd.Typed:
@@ -588,7 +704,7 @@ func newRig(cd caseDesc, db *badger.DB) *rig {
 		// SetPrefix replaces an earlier prefix (also by the empty one); Type() is the zero value of the store's type
 		st.SetPrefix("zz").SetPrefix(cd.Prefix)
 		if ty := st.Type(); cd.Bin != "" {
-			if want := map[string]string{"ptr": "*main.binPtr", "map": "main.binMap", "val": "main.binVal"}[cd.Bin]; fmt.Sprintf("%T", ty) != want {
+			if want := map[string]string{"ptr": "*main.binPtr", "map": "main.binMap", "val": "main.binVal", "compact": "*main.binCompact", "cmap": "main.binCMap"}[cd.Bin]; fmt.Sprintf("%T", ty) != want {
 				r.note(fmt.Sprintf("Type() returned %T", ty))
 			}
 		} else if (cd.Typed && ty != interface{}(item{})) || (!cd.Typed && fmt.Sprintf("%T|%v", ty, ty) != "map[string]interface {}|map[]") {
@@ -661,12 +777,12 @@ func installHooks(st *mockstore.Store) {
 
 // observed outcome of one call
 type obs struct {
-	id   string
-	desc opDesc
-	res  string // Coq term of type result
-	cls  string
-	cbs  []cbRec
-	bcs  []bcRec
+	id      string
+	desc    opDesc
+	res     string // Coq term of type result
+	cls     string
+	cbs     []cbRec
+	bcs     []bcRec
 	idAfter string // ID() of the transaction right after the call
 }
 
@@ -1035,6 +1151,12 @@ func runSequential(cd caseDesc, sc *scratch) result {
 			defer it.Close()
 			for it.Rewind(); it.Valid(); it.Next() {
 				b, _ := it.Item().ValueCopy(nil)
+				if cd.Bin == "compact" || cd.Bin == "cmap" {
+					res.dist["raw_len_"+map[bool]string{true: "0", false: map[bool]string{true: "1", false: map[bool]string{true: "large", false: "other"}[len(b) > 1000]}[len(b) == 1]}[len(b) == 0]]++
+					if len(b) == 0 || (len(b) == 1 && b[0] >= '1' && b[0] <= '9') || b[0] == 'L' || b[0] == 'M' {
+						continue
+					}
+				}
 				if len(b) == 0 || b[0] != want {
 					r.note(fmt.Sprintf("stored bytes of key %q are %q, not in the encoding of the store's type", it.Item().Key(), b))
 				}
@@ -1763,8 +1885,8 @@ func runIsolation(cd caseDesc) result {
 func genIsolation(r *Rng, store string, typed bool, prefix string, rounds int, observers int) caseDesc {
 	return caseDesc{Store: store, Typed: typed, Prefix: prefix,
 		BeforeChange: store == "badger" && (observers == 0 || observers == 2), Listeners: 1,
-		NoOnChange:   observers == 1 || observers == 2,
-		Isolation: &isoDesc{Goroutines: 8 + r.Intn(9), Rounds: rounds, Seed: r.Next() % 1000000}}
+		NoOnChange: observers == 1 || observers == 2,
+		Isolation:  &isoDesc{Goroutines: 8 + r.Intn(9), Rounds: rounds, Seed: r.Next() % 1000000}}
 }
 
 // ---- generators ----
@@ -1803,6 +1925,16 @@ func genOp(r *Rng, cd caseDesc, kinds []string, id string, gs *genState) opDesc 
 			}
 		}
 	}
+	if cd.Bin == "compact" || cd.Bin == "cmap" {
+		// 0 = the zero value whose encoding is empty, 1-7 one byte, 8 large
+		switch k := r.Intn(100); {
+		case k < 40:
+			o.N = 0
+			o.NilEnc = r.Bool()
+		case k < 50:
+			o.N = 8
+		}
+	}
 	if (o.K == "create" || o.K == "update") && o.Wrong == 0 && r.Chance(9) {
 		o.Unenc = 1 + r.Intn(6) // right type, but the encoder rejects it
 	}
@@ -1836,7 +1968,7 @@ func genConfig(r *Rng) caseDesc {
 		// which observers are registered: none at all, only BeforeChange, only OnChange, both, several of each
 		cd := caseDesc{Store: "badger", Typed: r.Bool(), Prefix: r.Pick([]string{"", "", "p", "x.y"}), BeforeChange: r.Chance(60), Listeners: 1 + r.Intn(3)}
 		if r.Chance(25) {
-			cd.Bin = r.Pick([]string{"ptr", "ptr", "map", "val"})
+			cd.Bin = r.Pick([]string{"ptr", "map", "val", "compact", "compact", "cmap"})
 		}
 		genObservers(r, &cd)
 		return cd
@@ -1987,6 +2119,41 @@ func genDirectedUnenc() []caseDesc {
 	return out
 }
 
+// directed histories for the compact binary types: values whose encoding is empty ([]byte{} / nil),
+// one byte or large are created, read, replaced, deleted and created again.
+func genDirectedCompact() []caseDesc {
+	type pv struct {
+		n   int
+		nil bool
+	}
+	vals := []pv{{0, false}, {0, true}, {1, false}, {8, false}}
+	var out []caseDesc
+	for _, cfg := range []caseDesc{
+		{Store: "badger", Bin: "compact", Prefix: ""},
+		{Store: "badger", Bin: "compact", Prefix: "p", BeforeChange: true, Listeners: 1, NoOnChange: true},
+		{Store: "badger", Bin: "cmap", Prefix: "x.y", OnChangeMore: 1},
+	} {
+		for _, a := range vals {
+			for _, b := range vals {
+				ops := []opDesc{
+					{K: "create", N: a.n, NilEnc: a.nil}, {K: "exists"}, {K: "value"}, {K: "create", N: b.n, NilEnc: b.nil},
+					{K: "update", N: b.n, NilEnc: b.nil}, {K: "value"}, {K: "exists"}, {K: "update", N: a.n, NilEnc: a.nil}, {K: "value"},
+					{K: "delete"}, {K: "exists"}, {K: "value"}, {K: "delete"}, {K: "create", N: a.n, NilEnc: a.nil}, {K: "value"},
+				}
+				one := cfg
+				one.Txns = []txnDesc{{ID: "a", Write: true, Ops: ops}}
+				out = append(out, one)
+				sep := cfg
+				for i, o := range ops {
+					sep.Txns = append(sep.Txns, txnDesc{ID: "a", Write: !(o.K == "value" || o.K == "exists") || i%2 == 0, Ops: []opDesc{o}})
+				}
+				out = append(out, sep)
+			}
+		}
+	}
+	return out
+}
+
 // all histories of at most maxLen single-operation transactions over a small alphabet
 func genExhaustive(cd caseDesc, maxLen int) []caseDesc {
 	var alpha []txnDesc
@@ -2113,6 +2280,9 @@ func main() {
 				add("foreign_entry", runForeign(caseDesc{Store: "badger", Bin: bin, Prefix: "", BeforeChange: true, Listeners: 1, Foreign: f}, sc))
 			}
 		}
+		for _, cd := range genDirectedCompact() {
+			add("directed_compact", runSequential(cd, sc))
+		}
 		for _, cd := range genDirectedUnenc() {
 			add("directed_unencodable", runSequential(cd, sc))
 		}
@@ -2146,6 +2316,6 @@ func main() {
 		}
 	}
 	Emit(o, "C11", "From GoRes Require Import Run.Run_C11.", "kcase",
-		"histories of Create/Update/Delete/Value/Exists through Read/Write transactions of the real badgerstore (scratch BadgerDB; typed struct / untyped map / types with their own binary encoding: pointer type, map type with value receivers, value type that falls back to JSON, with the stored bytes checked to be in that encoding; prefix \"\"/p/x.y) and mockstore (with/without NewID), every section with stores that have no listener at all, only BeforeChange, only OnChange, both, or several of each (0-3 of each kind; further OnChange listeners must see what the first saw, in registration order; without OnChange listener the callback expectations are vacuous and results, reads and final content are still compared): all histories of <=2 (thorough <=3) single-operation transactions over ids {a,\"\"}, random sequential histories of 1-25 operations over {a,b,c,\"\"} with 1-4 operations per transaction, a pool of 3 payloads per id (Updates to the stored value are common), 1-3 BeforeChange listeners whose vetoes come from a per-call flag, a per-id switch toggled mid-history or a marker in the value, BeforeChange calls recorded per operation, 9% of the written values of the right type but unencodable (NaN, +-Inf, func, chan, failing MarshalJSON, flat or nested; also in 480 directed histories that go on using the id afterwards), and concurrent runs of 2-6 goroutines x 5-20 transactions over 2-3 ids serialised by observed lock acquisition order, and isolation runs of 8-16 goroutines each owning one id for 400-1200 (thorough up to 4000) write/read-back rounds (incl. vetoed Updates, half of them to the stored value) with owner- and round-stamped values of 30-1500 bytes, checked on the spot, at the end and after reopening the database (first 8 rounds per id also go to the Coq oracle); non-trivial = at least two successful mutations, or a read of the transaction's own write, or a concurrent run; distinct by the whole observed history",
+		"histories of Create/Update/Delete/Value/Exists through Read/Write transactions of the real badgerstore (scratch BadgerDB; typed struct / untyped map / types with their own binary encoding: pointer type, map type with value receivers, value type that falls back to JSON, compact pointer and map types whose zero value encodes to ZERO bytes ([]byte{} or nil), small values to one byte and others to 70 KB (96 directed create/read/replace/delete/re-create histories plus 40% empty payloads in the random ones), with the stored bytes checked to be in that encoding; prefix \"\"/p/x.y) and mockstore (with/without NewID), every section with stores that have no listener at all, only BeforeChange, only OnChange, both, or several of each (0-3 of each kind; further OnChange listeners must see what the first saw, in registration order; without OnChange listener the callback expectations are vacuous and results, reads and final content are still compared): all histories of <=2 (thorough <=3) single-operation transactions over ids {a,\"\"}, random sequential histories of 1-25 operations over {a,b,c,\"\"} with 1-4 operations per transaction, a pool of 3 payloads per id (Updates to the stored value are common), 1-3 BeforeChange listeners whose vetoes come from a per-call flag, a per-id switch toggled mid-history or a marker in the value, BeforeChange calls recorded per operation, 9% of the written values of the right type but unencodable (NaN, +-Inf, func, chan, failing MarshalJSON, flat or nested; also in 480 directed histories that go on using the id afterwards), and concurrent runs of 2-6 goroutines x 5-20 transactions over 2-3 ids serialised by observed lock acquisition order, and isolation runs of 8-16 goroutines each owning one id for 400-1200 (thorough up to 4000) write/read-back rounds (incl. vetoed Updates, half of them to the stored value) with owner- and round-stamped values of 30-1500 bytes, checked on the spot, at the end and after reopening the database (first 8 rounds per id also go to the Coq oracle); non-trivial = at least two successful mutations, or a read of the transaction's own write, or a concurrent run; distinct by the whole observed history",
 		cases, dist, nil, impl, 300)
 }
